@@ -410,6 +410,12 @@ def validate(text):
         for it in d.items:
             if it.kind == "sym" and it.sym in tls_def and tls_def[it.sym] != bool(it.thread):
                 errors.append("data $%s: address of $%s with inconsistent thread marker" % (d.name, it.sym))
+    # 7c. a compiler-generated local symbol ($.L...) cannot be defined by another unit: every reference needs a definition here
+    for name in sorted(seen_ref) + sorted({it.sym for d in mod.data for it in d.items if it.kind == "sym"}):
+        if name.startswith(".L") and name not in tls_def and name not in funcs:
+            msg = "local symbol $%s is referenced but the module does not define it" % name
+            if msg not in errors:
+                errors.append(msg)
     # 8. calls to functions defined in this module agree with the definition
     for f in mod.funcs:
         for b in f.blocks:
